@@ -57,7 +57,10 @@ def atasciiStep (st : OSt) (ch : Char) : OR :=
   else if ch = '\x7e' then oret { st with c := { c with x := max 0 (c.x - 1) } } .ok
   else if ch = '\x7f' ∨ ch = '\x9e' ∨ ch = '\x9f' then oret st .ok
   else if ch = '\x9b' then oliftSC st (lf s c)
-  else if ch = '\x9c' ∨ ch = '\x9d' ∨ ch = '\xfd' ∨ ch = '\xfe' ∨ ch = '\xff' then oret st .ok
+  else if ch = '\x9c' ∨ ch = '\x9d' then
+    -- delete / insert line at the cursor row
+    if LineOpPanics s c.y then .error (.negIndex "atascii: remove/insert_terminal_line(y)") else oret st .ok
+  else if ch = '\xfd' ∨ ch = '\xfe' ∨ ch = '\xff' then oret st .ok
   else
     let v := ch.toNat % 65536
     printValue st (if v > 127 then v - 128 else v)
@@ -81,6 +84,8 @@ def petsciiStep (st : OSt) (ch : Char) : OR :=
     let st := { st with esc := false }
     if b = 74 then oret { st with c := { c with x := 0 } } .ok                -- 'J'
     else if b = 75 then oret { st with c := { c with x := s.tw - 1 } } .ok    -- 'K'
+    else if b = 68 ∨ b = 73 then                                               -- 'D' delete line, 'I' insert line
+      if LineOpPanics s c.y then .error (.negIndex "petscii: remove/insert_terminal_line(y)") else oret st .ok
     else oret st .ok
   else if b = 0x0A then oret { st with c := { c with x := 0 } } .ok
   else if b = 0x0D ∨ b = 0x8D then oliftSC st (lf s c)
